@@ -613,6 +613,13 @@ class Gen:
         if rt.kind == 'prim':
             if rt.name in ('Bytes', 'Timestamp') and not self.chance('p_ts_bytes_default'):
                 return None
+            if rt.name == 'String' and rt.args.get('pattern') and \
+                    self.chance('p_prefix_pattern_literal'):
+                # matches only as a prefix: the runtime matches whole strings
+                for p in PATTERNS:
+                    if p[0] == rt.args['pattern']:
+                        self.m.feature('prefix_only_pattern_default')
+                        return ('lit', self.rnd.choice(p[2]))
             return ('lit', self.literal_for(rt))
         if rt.kind == 'ref':
             d = self.m.lookup(rt.ns, rt.name)
@@ -1100,7 +1107,7 @@ class Gen:
         if labels:
             return ('ref', r.choice(labels))
         if d.kind == 'union':
-            vt = self.void_tags(d)
+            vt = [x for x in self.void_tags(d) if x != 'other']
             if vt:
                 return ('ref', r.choice(vt))
         return ('null',) if t.nullable else None
